@@ -15,6 +15,24 @@ func (s *Schema) fillDefaults(t RType, v *Val) *Val { return s.fill(t, v, true) 
 // record's UnmarshalRestLi (known finding D28); used only to classify a round-trip difference narrowly
 func (s *Schema) fillDefaultsAsGenerated(t RType, v *Val) *Val { return s.fill(t, v, false) }
 
+// New...WithDefaultValues: own defaults, and recursively those of REQUIRED record fields (the property: "direct, nested required
+// records, included records")
+func (s *Schema) fillDefaultsCtor(t RType, v *Val) *Val {
+	out := s.fill(t, v, true)
+	n := s.Types[t.Reference.Name]
+	if n != nil && n.Kind == "record" {
+		for i, inc := range n.Includes {
+			out.Incs[i] = s.fillDefaultsCtor(ref(inc), out.Incs[i])
+		}
+		for i, f := range n.Fields {
+			if f.Type.Reference != nil && s.Types[f.Type.Reference.Name].Kind == "record" && !f.IsOptional && f.DefaultValue == nil {
+				out.Fields[i] = s.fillDefaultsCtor(f.Type, out.Fields[i])
+			}
+		}
+	}
+	return out
+}
+
 func (s *Schema) fill(t RType, v *Val, intoIncludes bool) *Val {
 	return s.fill2(t, v, intoIncludes, true)
 }
